@@ -6,7 +6,7 @@ from props import _family as F
 PROOF_MODULES = ['Jwt.Props.C19']
 PROP_MODULES = ['Jwt.Props.C19']
 PROP_FILES = ['Jwt/Props/C19.lean']
-GENERATED_FACT_THEOREMS = 0
+GENERATED_FACT_THEOREMS = 1
 CHECKER_CMD = "cd lean && lake build Jwt.Props.C19 && lake env lean <generated #print axioms file>"
 LEVEL_TEXT = ('Lean theorems for every callback function: returning 0 with key/alg untouched leaves the whole outcome unchanged whatever it did to the token object; non-zero return always fails; selected (alg,key) passes the setkey table. Tied to the code by scripted callback programs (set/replace/delete/delete-all of claims and headers, whole-object JSON merge, reads) x claim-check configurations x passing/failing tokens, with vs without the callback on the real library.')
 ASSUMPTIONS = F.COMMON_ASSUME + []
